@@ -899,7 +899,11 @@ func (g *gen) famIndirectLeftRecursion() {
 		call.Prods = append(call.Prods, &Prod{Terms: []*Term{rref("expr"), open, {Kind: KList, Elem: rref("expr"), Sep: g.tokN(6)}, cls}})
 	}
 	stmt := &Rule{Name: "stmt"}
-	switch g.pick(3) {
+	switch g.pick(5) {
+	case 3, 4:
+		// FIRST(expr) is needed before FIRST(call), and call follows a non-nullable non-terminal
+		mod.Prods = []*Prod{{Terms: []*Term{pub}}, {Terms: []*Term{g.tokN(7)}}}
+		stmt.Prods = []*Prod{{Terms: []*Term{rref("mod"), rref("expr"), semi}}, {Terms: []*Term{do, rref("mod"), rref("call"), semi}}}
 	case 0:
 		stmt.Prods = []*Prod{{Terms: []*Term{do, rref("mod"), rref("call"), semi}}, {Terms: []*Term{rref("call"), semi}}}
 	case 1:
